@@ -316,6 +316,33 @@ pub fn profile_sets() -> Vec<TaskSet> {
         side: Some(Con::BinEq(v(2), View::new(0, -2, 4))),
         more: vec![Con::BinEq(v(4), View::new(0, -2, 9))],
     });
+    out.extend(long_profile_sets());
+    out
+}
+
+/// L5 of `profile_sets`.
+pub fn long_profile_sets() -> Vec<TaskSet> {
+    let v = View::id;
+    let mut out = vec![];
+    // L5: a profile of three or more time points and short tasks that only touch its first or
+    // last point when started just outside of it (explanation points of holes and of bound updates
+    // differ along the profile)
+    for (adur, durs, uses, cap) in [
+        (4, [2, 3], [2, 1, 1], 2),
+        (4, [2, 2], [1, 1, 1], 2),
+        (3, [2, 2], [2, 1, 2], 3),
+        (5, [2, 3], [1, 1, 1], 1),
+    ] {
+        out.push(TaskSet {
+            vars: vec![VarDecl::interval(2, 3), VarDecl::interval(0, 8), VarDecl::interval(0, 9)],
+            starts: vec![v(0), v(1), v(2)],
+            durations: vec![adur, durs[0], durs[1]],
+            usages: uses.to_vec(),
+            cap,
+            side: None,
+            more: vec![],
+        });
+    }
     out
 }
 
